@@ -33,3 +33,8 @@ chk("C10", "exploration",
     "the reference exclusion model is written from the documentation; replacements never introduce ignore/end inside a block; the length leak (bytes overwritten by spaces) is a listed known finding",
     "relational two-run (non-interference) monitor over in-process parser executions and pint child processes",
     "DESIGN.md §3 C10")
+chk("C14", "exploration",
+    "the real internal/promapi client (in-process, built with -race) is driven by 2-64 concurrent callers over all five endpoint kinds against observation servers that stamp every request; request-log monitors (same-key overlap, in-flight sweep vs configured concurrency, request counts vs injected failures), value identity/equality at the caller boundary, a porcupine linearizability check per (upstream, question) against a small cache model, the Go race detector and a crash monitor on the child processes. 1500 / 30000 seeded contention trials.",
+    "server stamps lie inside the client's in-flight interval (can only under-state overlap); porcupine v1.3.0 with a 5 s limit (Unknown = inconclusive); deadlocks surface as INCONCLUSIVE; TTL/eviction not exercised; the shared-slice duplication is a listed known finding",
+    "runtime monitoring: request-log invariants + porcupine linearizability check + Go race detector",
+    "DESIGN.md §3 C14")
